@@ -187,6 +187,51 @@ pub fn gen_rules_world(seed: u64) -> SupplyTrace {
         files.push(FileSpec { name: gen::link_name(&names[i], &keys, i + 1), body: Body::Link(link), doc: DocSpec { signers: vec![i + 1], ops: vec![], pretty: false } });
         prev_products = Some(prods);
     }
+    // a relay built on purpose: one artifact with an unusual base name goes from step i-1 (products, below
+    // a destination prefix or not) to step i (materials, below a source prefix or not); the decision of
+    // step i's material rules hinges on whether its MATCH rule consumes exactly that artifact
+    if n >= 2 && r.chance(1, 8) {
+        let i = 1 + r.idx(n - 1);
+        let base = *r.pick(&["~lock", "übersicht", "~", "é", "ünï", "~foo", "zz", "a b", "Ω", "-dash", ".dot", "~~", "\u{7f}del", "a", "x.y.z"]);
+        let srcp = if r.chance(3, 4) { Some(*r.pick(PREFIXES)) } else { None };
+        let dstp = if r.chance(1, 2) { Some(*r.pick(PREFIXES)) } else { None };
+        let join = |p: Option<&str>| match p {
+            Some(p) => format!("{}/{}", p, base),
+            None => base.to_string(),
+        };
+        let (src_key, dst_key) = (join(srcp), join(dstp));
+        ctr += 1;
+        let d = gen::digest_of(3000 + ctr, false);
+        if let Body::Link(l) = &mut files[i - 1].body {
+            l.products.insert(dst_key.clone(), d.clone());
+        }
+        if let Body::Link(l) = &mut files[i].body {
+            l.materials.insert(src_key.clone(), if r.chance(1, 5) { gen::digest_of(4000 + ctr, false) } else { d });
+        }
+        let mut m: Rule = vec!["MATCH".into(), r.pick(&["*", "?*", "*?"]).to_string()];
+        if r.chance(1, 3) {
+            m[1] = base.to_string();
+        }
+        if let Some(p) = srcp {
+            m.push("IN".into());
+            m.push(if r.chance(1, 6) { format!("{p}/") } else { p.to_string() });
+        }
+        m.push("WITH".into());
+        m.push("PRODUCTS".into());
+        if let Some(p) = dstp {
+            m.push("IN".into());
+            m.push(p.to_string());
+        }
+        m.push("FROM".into());
+        m.push(names[i - 1].clone());
+        let mut rules = vec![m, vec!["DISALLOW".into(), src_key.clone()], vec!["ALLOW".into(), "*".into()]];
+        if r.chance(1, 3) {
+            // a rule in front that must leave the artifact alone
+            rules.insert(0, vec![r.pick(&["CREATE", "DELETE", "MODIFY"]).to_string(), "nothing-like-it".into()]);
+        }
+        steps[i].exp_mat = rules;
+        labels.push("RELAY-ODD-NAME".to_string());
+    }
     let now = gen::NOW_DEFAULT;
     let root = LevelSpec {
         layout: LayoutSpec { expires: refmodel::render_rfc3339(now + 86_400, None, ""), readme: String::new(), key_table: (1..=n).collect(), steps, inspect: vec![] },
